@@ -83,7 +83,7 @@ def run(ctx):
     ctx.proofs()
     core.build_repo(); core.build_sup()
     rng = ctx.rng
-    known_sites = {'finChmod': 'F11', 'finUtimens': 'F11', 'finFsync': 'F11', 'finStat': 'F11', 'destProbe': 'F12'}
+    known_sites = {'finChmod': 'F11', 'finUtimens': 'F11', 'finFsync': 'F11', 'finStat': 'F11'}
     sites_hit = {}
     with core.Scratch('c04') as base:
         for driver in ('parfile', 'parblock'):
@@ -123,7 +123,7 @@ def run(ctx):
                 for cp in cdst[:2]:
                     for en in ('EMFILE', 'EACCES'):
                         plans.append(('createDst', [f'fail openat ={cp} * {E[en]}'], en + '-persistent'))
-                # existence probes of the destination (finding F12): statx of DEST by main / the walker
+                # existence probes of the destination (the repaired defect F12): statx of DEST by main / the walker
                 if ctx.quick and variant == 'into':
                     plans = []          # quick: this variant only serves the destination probes
                 plans.append(('destProbe', [f'fail statx DEST * {E["EACCES"]}'], 'EACCES'))
@@ -152,17 +152,18 @@ def run(ctx):
                         if why:
                             # attributable to a recorded finding iff every failed step is a recorded silent site or one of the two
                             # steps the property itself tolerates (xattr, ownership), with at least one recorded site among them
-                            tolerated = {'finXattr', 'finChown'}
+                            tolerated = {'finXattr', 'finChown', 'destProbe'}      # (a probe is not a step: its failure is either reported or harmless — F12 is repaired)
                             kf = [known_sites.get(s) for s in sites if s not in tolerated]
                             if kf and all(kf) and all(ctx.open_finding(k) for k in kf):
                                 for k in set(kf):
                                     ctx.known_finding(k, ctx.open_finding(k)['what'])
+                                    ctx.cov.setdefault('known_finding_cases', {}).setdefault(k, []).append(dict(driver=driver, variant=variant, plan=plan, incorrect=why)) if len(ctx.cov.get('known_finding_cases', {}).get(k, [])) < 5 else None
                             else:
                                 ctx.violation(f'{driver}-{variant}-{site}-{en}.json', dict(driver=driver, variant=variant, site=site, plan=plan, exit=o.res.exit, stderr=o.res.stderr[-400:], incorrect=why),
                                               f'C04: {plan} made a step fail silently: exit 0 but {why}')
                                 continue
                     if 'destProbe' in sites:
-                        continue        # a failed probe is not reported by itself (theorem probe_failure_is_silent); what follows depends on later steps
+                        continue        # probes are addressed by count here and only the mapping test is fallible (mapping_probe_failure_is_reported): no exit prediction per count
                     # ---- correspondence: the model's table predicts the exit class
                     metas.append((site, plan, en, o.res.cls, o.res.stderr[-200:]))
                     reqs.append(f"errs {driver} {' '.join(sites)}")
